@@ -83,7 +83,7 @@ def oracle(ctx, label, data, o, names):
         composition(ctx, label, data, o, names)
     if not (o.ref_ok and o.fick_ok):
         return
-    if o.exec_err is not None:
+    if o.exec_err is not None and not getattr(o, "ran_without_result", False):
         agg.count("skipped_exec_error(C05)")
         return
     agg.count("inclusion_checks")
